@@ -94,6 +94,10 @@ def impl_init():
         # the carrier may be any segment with data: the HTTP signature of a packet is that of its payload, whatever the TCP flags or IP fragment bits say
         fl = ["PA", "PA", "A", "P", "FA", "S", "SF", "FPA", "R", ""][len(raw) % 10]
         l3 = (SIP(flags="MF") if len(raw) % 7 == 0 else SIP()) if len(raw) % 2 else SIP6()
+        if not len(raw) % 2 and len(raw) % 6 == 0:
+            # IPv6 with an extension header between the IPv6 header and TCP: the payload is the payload all the same
+            from scapy.layers.inet6 import IPv6ExtHdrDestOpt, IPv6ExtHdrHopByHop
+            l3 = SIP6() / (IPv6ExtHdrHopByHop() if len(raw) % 4 else IPv6ExtHdrDestOpt() / IPv6ExtHdrHopByHop())
         seg = l3 / (STCP(sport=40000, dport=port, flags=fl) if len(raw) % 4 < 2 else STCP(sport=port, dport=40000, flags=fl)) / SRaw(raw)
         pkt = l3.__class__(bytes(seg))
         if len(raw) % 2 and len(raw) % 5 == 0:
